@@ -156,6 +156,22 @@ func isTypedNil(x any) bool {
 	return false
 }
 
+/*
+isZeroStackage returns a Boolean value indicative of whether x is
+a zero-valued Stack, Condition, or type alias of either, possibly
+behind a (non-nil) pointer.
+*/
+func isZeroStackage(x any) bool {
+	if x == nil {
+		return false
+	}
+	t, v, _ := derefPtr(typOf(x), valOf(x))
+	if !v.IsValid() || !v.IsZero() {
+		return false
+	}
+	return t.ConvertibleTo(typOf(Stack{})) || t.ConvertibleTo(typOf(Condition{}))
+}
+
 func isPtr(t reflect.Type) bool {
 	if t == nil {
 		return false
